@@ -51,7 +51,10 @@ class Sched:
         self.root = root
         self.sems, self.pending, self.done, self.result = {}, {}, set(), {}
         self.back = threading.Semaphore(0)
-        self.lock_owner = None
+        self.lock_owner = None      # holder of the ENTRY lock (`<entry file>.lock`)
+        self.entry_lock = None      # its path; a lock with any other path is a different mutex
+        self.other_locks = {}       # path -> holder
+        self.pending_lock = {}      # caller -> path of the lock it is about to acquire
         self.abort = False
         self.threads = []
 
@@ -105,10 +108,15 @@ class Sched:
         for n in sorted(self.sems):
             if n in self.done:
                 continue
-            if self.pending[n] == 'acquire' and self.lock_owner is not None:
+            if self.pending[n] == 'acquire' and self.holder(self.pending_lock.get(n)) is not None:
                 continue
             out.append(n)
         return out
+
+    def holder(self, path):
+        if path is None or self.entry_lock is None or path == self.entry_lock:
+            return self.lock_owner
+        return self.other_locks.get(path)
 
     def step(self, name):
         self.sems[name].release()
@@ -138,19 +146,29 @@ class SchedLock:
     def acquire(self, *a, **kw):
         t = kw.get('timeout', a[0] if a else None)
         finite = self.finite or (t is not None and t >= 0)
+        path = str(self.path)
+        if S.me() is not None:
+            S.pending_lock[S.me()] = path
         S.point('acquire-or-timeout' if finite else 'acquire')
         if S.me() is not None:
-            if finite and S.lock_owner is not None:
+            if finite and S.holder(path) is not None:
                 # scheduled while another caller holds the lock: the worst case of a finite timeout (the holder is slow)
                 import filelock
                 raise filelock.Timeout(str(self.path))
-            S.lock_owner = S.me()
+            if S.entry_lock is None or path == S.entry_lock:
+                S.lock_owner = S.me()
+            else:
+                S.other_locks[path] = S.me()       # a lock file of another name excludes nobody who uses the entry lock
         return self
 
     def release(self, *a, **kw):
         S.point('release')
         if S.me() is not None:
-            S.lock_owner = None
+            path = str(self.path)
+            if S.entry_lock is None or path == S.entry_lock:
+                S.lock_owner = None
+            else:
+                S.other_locks.pop(path, None)
 
     def __enter__(self):
         return self.acquire()
@@ -304,10 +322,13 @@ class Exec:
             return v
 
         def fn():
+            # every caller but the first opens the cache directory itself (as a second process, or the per-call sub-cache of `cached`,
+            # does): opening a cache is part of its call and happens whenever the caller is first scheduled
+            cache = self.cache if i == 0 else self.tc.JsonCache(self.root)
             if kind == 'get':
-                r = self.cache.get(KEY)
+                r = cache.get(KEY)
             else:
-                r = self.cache.get_or_compute(KEY, comp, force=spec[1])
+                r = cache.get_or_compute(KEY, comp, force=spec[1])
             if r is self.tc.NO_VALUE:
                 return 'miss'
             return {'val': r}
@@ -317,6 +338,7 @@ class Exec:
         """chooser(step_index, enabled) -> caller id.  Returns the trace."""
         n = len(self.kinds)
         S.reset(str(self.root))
+        S.entry_lock = str(self.final) + '.lock'
         steps = []                 # (caller, label, enabled-before)
         started = {}               # caller -> facts observed by the harness at its first step
         returned_val = False       # some call has returned a value
